@@ -1,4 +1,5 @@
 From RV Require Import Lib.Res Rules.Rules.
+From RV Require Generated.Params.
 From Coq Require Import ZifyBool ZifyN ZifyNat.
 Open Scope N_scope.
 Ltac Zify.zify_post_hook ::= Z.div_mod_to_equations.
@@ -626,3 +627,7 @@ Proof.
   - rewrite map_lookup_app. destruct (map_lookup e2 removals); [reflexivity|].
     cbn [map_lookup]. replace (entity =? e2) with false by lia. reflexivity.
 Qed.
+
+(* default priority of a single-component rule: re-read from the source on every run *)
+Lemma default_priority_pinned : RV.Generated.Params.default_priority_single = 1.
+Proof. reflexivity. Qed.
